@@ -179,8 +179,7 @@ class SumAggregator:
                             trigger_index = i
                             continue
                         anon_are_anonymous = False
-                    if anon_are_anonymous:
-                        assert trigger_index is not None
+                    if anon_are_anonymous and trigger_index is not None:
                         return (lit, trigger_index, next_anon_pred)
         return None
 
